@@ -123,7 +123,7 @@ theorem inv1_step {P : Params} {s s' : State} (h : Inv1 P s) (hs : Step P s s') 
     refine h.move i _ (s.status i) (by simp [PhaseStatus, this]) (by simp [TailTarget])
       (by simp [PhaseClock]) Iff.rfl _ rfl rfl rfl rfl rfl rfl rfl rfl ?_
     simp [setPhase, updF_self]
-  | publishOne i run l todo newLoc v hp hv =>
+  | publishOne i run l todo newLoc v hp hl hv =>
     have := hst i; rw [hp] at this; simp only [PhaseStatus] at this
     refine h.move i _ (s.status i) (by simp [PhaseStatus, this]) (by simp [TailTarget])
       (by simp [PhaseClock]) Iff.rfl _ rfl rfl rfl rfl rfl rfl rfl rfl ?_
@@ -133,7 +133,7 @@ theorem inv1_step {P : Params} {s s' : State} (h : Inv1 P s) (hs : Step P s s') 
     refine h.move i _ (s.status i) (by simp [PhaseStatus, this]) (by simp [TailTarget])
       (by simp [PhaseClock]) Iff.rfl _ rfl rfl rfl rfl rfl rfl rfl rfl ?_
     simp [setPhase, updF_self]
-  | removeOne i run l todo newLoc hp =>
+  | removeOne i run l todo newLoc hp hl =>
     have := hst i; rw [hp] at this; simp only [PhaseStatus] at this
     refine h.move i _ (s.status i) (by simp [PhaseStatus, this]) (by simp [TailTarget])
       (by simp [PhaseClock]) Iff.rfl _ rfl rfl rfl rfl rfl rfl rfl rfl ?_
@@ -152,22 +152,22 @@ theorem inv1_step {P : Params} {s s' : State} (h : Inv1 P s) (hs : Step P s s') 
     have := hst i; rw [hp] at this; simp only [PhaseStatus] at this
     refine h.move i _ .validating (by simp [PhaseStatus]) (by simp [TailTarget])
       (by simp [PhaseClock]) (by simp [this]) _ rfl rfl rfl rfl rfl rfl rfl rfl rfl
-  | markErrSome i e ow l todo en hp hm =>
+  | markErrSome i e ow l todo en hp hl hm =>
     have := hst i; rw [hp] at this; simp only [PhaseStatus] at this
     refine h.move i _ (s.status i) (by simp [PhaseStatus, this]) (by simp [TailTarget])
       (by simp [PhaseClock]) Iff.rfl _ rfl rfl rfl rfl rfl rfl rfl rfl ?_
     simp [updF_self]
-  | markErrNone i e ow l todo hp hm =>
+  | markErrNone i e ow l todo hp hl hm =>
     have := hst i; rw [hp] at this; simp only [PhaseStatus] at this
     refine h.move i _ (s.status i) (by simp [PhaseStatus, this]) (by simp [TailTarget])
       (by simp [PhaseClock]) Iff.rfl _ rfl rfl rfl rfl rfl rfl rfl rfl ?_
     simp [setPhase, updF_self]
-  | markValSome i l todo en hp hm =>
+  | markValSome i l todo en hp hl hm =>
     have := hst i; rw [hp] at this; simp only [PhaseStatus] at this
     refine h.move i _ (s.status i) (by simp [PhaseStatus, this]) (by simp [TailTarget])
       (by simp [PhaseClock]) Iff.rfl _ rfl rfl rfl rfl rfl rfl rfl rfl ?_
     simp [updF_self]
-  | markValNone i l todo hp hm =>
+  | markValNone i l todo hp hl hm =>
     have := hst i; rw [hp] at this; simp only [PhaseStatus] at this
     refine h.move i _ (s.status i) (by simp [PhaseStatus, this]) (by simp [TailTarget])
       (by simp [PhaseClock]) Iff.rfl _ rfl rfl rfl rfl rfl rfl rfl rfl ?_
@@ -268,7 +268,7 @@ theorem inv1_step {P : Params} {s s' : State} (h : Inv1 P s) (hs : Step P s s') 
       by_cases hj : j = i
       · subst hj; simp [TailTarget]
       · rw [updF_ne _ _ _ _ hj]; exact h.tail_target j
-  | valCheck i ts done r todo conflict hp =>
+  | valCheck i ts done r todo conflict k hp hk =>
     have := hst i; rw [hp] at this; simp only [PhaseStatus] at this
     have hck := h.clk_phase i; rw [hp] at hck; simp only [PhaseClock] at hck
     refine h.move i _ (s.status i) (by simp [PhaseStatus, this]) (by simp [TailTarget])
